@@ -38,7 +38,7 @@ from ..rules import call_sites
 from ..mutate import mutate, remove_stmts, replace_expr, replace_stmt, parse_stmt, parse_expr
 from ..x_http import (
     RegexEnv, atom_edges, group_count, group_rx, leads_to_raise, only_through, reach_without, resolve_call, single_bindings,
-    truthy_edges, canon_atom, self_modsets,
+    truthy_edges, canon_atom, self_modsets, norm_func, Flow, group_index,
 )
 from ..x_absint import Evaluator, HeaderMap, Obj, UNK, Raised
 from . import c04 as _c04
@@ -78,9 +78,14 @@ def _const_str(e, v=None):
 # ---------------------------------------------------------------------------------------
 
 
+def _F(ck, rel, qn):
+    """the anchored function with private single-purpose helpers inlined (same qualified name)"""
+    return norm_func(ck.repo, ck.func(rel, qn))
+
+
 def check_status_line(ck, env):
     R = "C08.status-line"
-    fi = ck.func(HU, "parse_response_start_line")
+    fi = _F(ck, HU, "parse_response_start_line")
     cfg = fi.cfg
     line_p = fi.params()[0]
     gates = [x for x in env.calls(fi) if x[3] is not None and q.dotted(x[3]) == line_p]
@@ -113,19 +118,22 @@ def check_status_line(ck, env):
     ck.ob(R, fi, fi.node, ok and n > 0, "a malformed status line raises HTTPInputError", construct="no-match edge")
     ctor = [c for c in q.calls(fi.node) if q.call_attr(c) == "ResponseStartLine"]
     ck.floor(R, len(ctor), 1, "ResponseStartLine constructions")
+    flow = Flow(fi)
     for c in ctor:
+        at = flow.node_of(c)
         idx = []
         for a in c.args:
+            e = flow.expand(a, at)
             wrapped = False
-            if isinstance(a, ast.Call) and isinstance(a.func, ast.Name) and a.func.id == "int" and len(a.args) == 1:
-                a = a.args[0]
+            if isinstance(e, ast.Call) and isinstance(e.func, ast.Name) and e.func.id == "int" and len(e.args) == 1:
+                e = e.args[0]
                 wrapped = True
-            if isinstance(a, ast.Call) and q.call_attr(a) == "group" and a.args and isinstance(a.args[0], ast.Constant):
-                idx.append((a.args[0].value, wrapped))
-            else:
-                idx.append(None)
+            gi = group_index(e)
+            idx.append(None if gi is None else (gi, wrapped))
+        if None in idx or len(idx) != 3:
+            raise AnalysisError("ResponseStartLine built from something else than match groups at %s" % fi.site(c))
         ck.ob(R, fi, c, idx == [(1, False), (2, True), (3, False)], "ResponseStartLine(version, int(code), reason) is built from groups 1, 2, 3 in order")
-    rm = ck.func(H1, "HTTP1Connection._read_message")
+    rm = _F(ck, H1, "HTTP1Connection._read_message")
     client = atom_edges(rm.cfg, lambda a: True if q.dotted(a) == "self.is_client" else None)
     prs = [(n, c) for n, c in rm.cfg.find(lambda x: isinstance(x, ast.Call) and resolve_call(ck.repo, rm, x) is fi)]
     ck.floor(R, len(prs), 1, "parse_response_start_line calls in _read_message")
@@ -233,6 +241,26 @@ def eval_client_slice(ck, fi, method, code, cl, te):
     return res
 
 
+def _regex_fallback(ck, fi):
+    """constant-fold method calls on module-level precompiled patterns (``_SEP_RE.split(text)``) with the stdlib's re"""
+    renv = RegexEnv(ck.repo)
+
+    def fb(st, c, d, args):
+        if isinstance(c.func, ast.Attribute) and c.func.attr in ("split", "fullmatch", "match", "search") and q.dotted(c.func.value) not in (None, "re"):
+            try:
+                pat = renv.pattern(fi, c.func.value)
+            except AnalysisError:
+                pat = None
+            if pat is not None and args and all(isinstance(a, type(pat)) for a in args[:1]) and not c.keywords:
+                import re as _re
+                if c.func.attr == "split":
+                    return _re.split(pat, args[0])
+                return UNK
+        return NotImplemented
+
+    return fb
+
+
 def eval_read_body(ck, fi, code, cl, te, limit=1000):
     ps = [p for p in fi.params() if p != "self"]
     if len(ps) != 3:
@@ -243,6 +271,7 @@ def eval_read_body(ck, fi, code, cl, te, limit=1000):
         "self._read_body_until_close": lambda st, *a: ("close",),
         "re.split": lambda st, pat=None, s=None, *a: (__import__("re").split(pat, s) if isinstance(pat, str) and isinstance(s, str) else UNK),
     })
+    ev.fallback = _regex_fallback(ck, fi)
     me = Obj("self", is_client=True, _max_body_size=limit, params=Obj("params", max_body_size=limit))
     outs = ev.run(fi.node, {"self": me, ps[0]: code, ps[1]: _resp_headers(cl, te), ps[2]: UNK})
     res = set()
@@ -290,7 +319,7 @@ TE_VALUES = (None, "chunked", "Chunked", "gzip", "gzip, chunked")
 
 def check_framing(ck):
     R = "C08.body-framing-table"
-    rb = ck.func(H1, "HTTP1Connection._read_body")
+    rb = _F(ck, H1, "HTTP1Connection._read_body")
     n = 0
     for code in (200, 204, 404):
         for te in TE_VALUES:
@@ -306,8 +335,8 @@ def check_framing(ck):
     ck.floor(R, n, 100, "evaluated _read_body valuations")
 
     R = "C08.no-body-table"
-    rm = ck.func(H1, "HTTP1Connection._read_message")
-    wh = ck.func(H1, "HTTP1Connection.write_headers")
+    rm = _F(ck, H1, "HTTP1Connection._read_message")
+    wh = _F(ck, H1, "HTTP1Connection.write_headers")
     rows = 0
     for method in METHODS:
         for code in CODES:
@@ -345,7 +374,7 @@ def check_framing(ck):
                         if any(c is UNK or c != code for c in codes):
                             bad = bad or "_read_body is not given this response's status code"
                             continue
-                        sel = eval_read_body(ck, ck.repo.func(H1, "HTTP1Connection._read_body"), code, cl, te)
+                        sel = eval_read_body(ck, _F(ck, H1, "HTTP1Connection._read_body"), code, cl, te)
                         nobody = sel <= {("fixed", 0), "error"}
                     else:
                         nobody = True
@@ -390,7 +419,7 @@ def check_limits(ck):
     _c04.check_content_length(ck, LIVE, R="C08.reader-limit")
     _c04.check_chunked(ck, LIVE, R="C08.reader-limit")
     R = "C08.reader-limit"
-    fi = ck.func(H1, "HTTP1Connection._read_body_until_close")
+    fi = _F(ck, H1, "HTTP1Connection._read_body_until_close")
     cfg = fi.cfg
     reads = [(n, c) for n, c in call_sites(fi, ".read_until_close")]
     ck.floor(R, len(reads), 1, "read_until_close calls")
@@ -412,7 +441,7 @@ def check_limits(ck):
     gz = _c04.check_gzip(ck, LIVE, R="C08.gzip-limit")
 
     R = "C08.gzip-drain"
-    gd = ck.func(H1, "_GzipMessageDelegate.data_received")
+    gd = _F(ck, H1, "_GzipMessageDelegate.data_received")
     chunk_p = [p for p in gd.params() if p != "self"][0]
     pm = q.parent_map(gd.node)
     decs = [c for c in q.calls(gd.node) if q.call_attr(c) == "decompress"]
@@ -436,7 +465,7 @@ def check_limits(ck):
         ck.ob(R, gd, c, only_through(gd.cfg, n, nodec), "the raw chunk is forwarded only when no decompressor is installed")
 
     R = "C08.gzip-finish"
-    gf = ck.func(H1, "_GzipMessageDelegate.finish")
+    gf = _F(ck, H1, "_GzipMessageDelegate.finish")
     cfg = gf.cfg
     fwd = [(n, c) for n, c in cfg.find(lambda x: isinstance(x, ast.Call) and q.call_attr(x) == "finish" and (q.dotted(x.func.value) or "").startswith("self."))]
     ck.floor(R, len(fwd), 1, "forwards of finish() in the gzip delegate")
@@ -453,7 +482,7 @@ def check_limits(ck):
     ck.ob(R, gf, gf.node, okr and n > 0, "left-over decompressed data at finish() is an error (not silently dropped)", construct="flush() remainder -> raise")
 
     R = "C08.gzip-selection"
-    hr = ck.func(H1, "_GzipMessageDelegate.headers_received")
+    hr = _F(ck, H1, "_GzipMessageDelegate.headers_received")
     ps = [p for p in hr.params() if p != "self"]
     for ce in (None, "gzip", "GZIP", "identity", "deflate", "x-gzip"):
         fwd_args = []
@@ -493,7 +522,7 @@ def check_client_plumbing(ck):
     """client-only preconditions of the framing table: the request method is remembered (HEAD detection)
     and body bytes are delivered although the client has finished writing its request."""
     R = "C08.no-body-table"
-    wh = ck.func(H1, "HTTP1Connection.write_headers")
+    wh = _F(ck, H1, "HTTP1Connection.write_headers")
     ps = [p for p in wh.params() if p != "self"]
     ms = self_modsets(ck.repo, H1, "HTTP1Connection")
     for method in ("GET", "HEAD", "POST"):
@@ -512,7 +541,7 @@ def check_client_plumbing(ck):
     R = "C08.delivery"
     n = 0
     for name in ("_read_fixed_body", "_read_chunked_body", "_read_body_until_close"):
-        f = ck.func(H1, "HTTP1Connection." + name)
+        f = _F(ck, H1, "HTTP1Connection." + name)
         cfg = f.cfg
         dels = [(nd, c) for nd, c in cfg.find(lambda x: isinstance(x, ast.Call) and q.call_attr(x) == "data_received")]
         ck.floor(R, len(dels), 1, "deliveries in %s" % name)
@@ -528,66 +557,110 @@ def check_client_plumbing(ck):
 
 
 def check_assembly(ck):
+    """simple_httpclient's assembly, decided by abstract interpretation of data_received / finish / headers_received
+    on stub objects (so aliases, conditional expressions and extracted helpers do not matter)."""
     R = "C08.assembly"
     repo = ck.repo
-    dr = ck.func(SC, "_HTTPConnection.data_received")
-    chunk_p = [p for p in dr.params() if p != "self"][0]
-    cfg = dr.cfg
-    init = ck.func(SC, "_HTTPConnection.__init__")
+    ms = self_modsets(repo, SC, "_HTTPConnection")
+
+    def evaluator(root, **kw):
+        ev = Evaluator(modset=lambda d: ms.get(d.split(".")[1]), **kw)
+
+        def inline(d):
+            name = d.split(".")[1]
+            if name == root or not repo.has_func(SC, "_HTTPConnection." + name):
+                return None
+            f = repo.func(SC, "_HTTPConnection." + name)
+            return None if isinstance(f.node, ast.AsyncFunctionDef) else f.node
+
+        ev.inline = inline
+        return ev
+
+    init = _F(ck, SC, "_HTTPConnection.__init__")
     bufs = [p for st in q.walk_body(init.node) if isinstance(st, (ast.Assign, ast.AnnAssign)) and isinstance(st.value, ast.List) and not st.value.elts for p in q.assigned_paths(st) if p.startswith("self.")]
     if len(bufs) != 1:
         raise AnalysisError("_HTTPConnection.__init__: cannot identify the chunk buffer (fields initialised to []: %s)" % bufs)
-    buf = bufs[0]
-    apps = [(n, c) for n, c in cfg.find(lambda x: isinstance(x, ast.Call) and q.call_attr(x) in ("append", "extend", "insert") and q.dotted(x.func.value) == buf)]
-    if not apps:
-        ck.ob(R, dr, dr.node, False, "delivered chunks are appended to %s" % buf, construct="no append to the chunk buffer")
-    for node, c in apps:
-        ck.ob(R, dr, c, q.call_attr(c) == "append" and len(c.args) == 1 and q.dotted(c.args[0]) == chunk_p, "each delivered chunk is appended unchanged, in order")
-    streams = [(n, c) for n, c in cfg.find(lambda x: isinstance(x, ast.Call) and (q.dotted(x.func) or "").endswith("streaming_callback"))]
-    ck.floor(R, len(streams), 1, "streaming_callback calls")
-    for node, c in streams:
-        ck.ob(R, dr, c, len(c.args) == 1 and q.dotted(c.args[0]) == chunk_p, "each delivered chunk is streamed unchanged")
-    # every normal path either appends, streams, or is the redirect-discard path
-    redirect = atom_edges(cfg, lambda a: True if (isinstance(a, ast.Call) and q.call_attr(a) == "_should_follow_redirect") else None)
-    ids = {n.id for n, _ in apps} | {n.id for n, _ in streams}
-    r = reach_without(cfg, redirect, follow_exc=False, stop=lambda n: n.id in ids)
-    ck.ob(R, dr, dr.node, cfg.exit.id not in r, "a chunk is dropped only when a redirect will be followed", construct="data_received: chunk neither stored nor streamed")
-    fin = ck.func(SC, "_HTTPConnection.finish")
-    binds = single_bindings(fin.node)
-    resp = [c for c in q.calls(fin.node) if q.call_attr(c) == "HTTPResponse"]
-    ck.floor(R, len(resp), 1, "HTTPResponse constructions in finish")
-    for c in resp:
-        code = q.arg(c, 1, "code")
-        ck.ob(R, fin, c, q.dotted(code) == "self.code", "the response carries the status code of the final response")
-        ck.ob(R, fin, c, q.dotted(q.kwarg(c, "headers")) == "self.headers", "the response carries the headers of the final response")
-        b = q.kwarg(c, "buffer")
-        ok = False
-        if isinstance(b, ast.Name):
-            vals = [st.value for st in q.walk_body(fin.node) if isinstance(st, ast.Assign) and any(q.dotted(t) == b.id for t in st.targets)]
-            full = [v for v in vals if isinstance(v, ast.Call) and q.call_attr(v) == "BytesIO" and v.args]
-            okd = False
-            for v in full:
-                d = v.args[0]
-                src = binds.get(d.id) if isinstance(d, ast.Name) else d
-                okd = isinstance(src, ast.Call) and q.call_attr(src) == "join" and isinstance(src.func.value, ast.Constant) and src.func.value.value == b"" and len(src.args) == 1 and q.dotted(src.args[0]) == buf
-            ok = bool(full) and okd
-            # the empty buffer is used only for streaming requests
-            empties = [st for st in q.walk_body(fin.node) if isinstance(st, ast.Assign) and any(q.dotted(t) == b.id for t in st.targets) and isinstance(st.value, ast.Call) and q.call_attr(st.value) == "BytesIO" and not st.value.args]
-            streaming = atom_edges(fin.cfg, lambda a: True if (q.dotted(a) or "").endswith("streaming_callback") else None)
-            for st in empties:
-                for node in fin.cfg.nodes_for(st):
-                    ck.ob(R, fin, st, only_through(fin.cfg, node, streaming), "an empty body is reported only when the chunks were streamed to streaming_callback")
-        ck.ob(R, fin, c, ok, "the response body is b''.join(<the appended chunks>)")
-    hr = ck.func(SC, "_HTTPConnection.headers_received")
+    buf = bufs[0].split(".", 1)[1]
+
+    def request(streaming, redirect=False):
+        cb = Obj("streaming_callback") if streaming else None
+        return Obj("request", streaming_callback=cb, follow_redirects=redirect, max_redirects=3 if redirect else 0, header_callback=None, expect_100_continue=False,
+                   url="http://x/", method="GET", decompress_response=True)
+
+    # --- data_received
+    dr = _F(ck, SC, "_HTTPConnection.data_received")
+    chunk_p = [p for p in dr.params() if p != "self"][0]
+    for streaming in (False, True):
+        streamed = []
+
+        def on_call(st, c, d, args, streamed=streamed):
+            if d is not None and d.endswith("streaming_callback"):
+                streamed.append(list(args))
+
+        ev = evaluator("data_received", on_call=on_call, funcs={"self._should_follow_redirect": lambda st, *a: False})
+        me = Obj("self", request=request(streaming), code=200, headers=HeaderMap(), **{buf: [b"first"]})
+        outs = ev.run(dr.node, {"self": me, chunk_p: b"second"})
+        for o in outs:
+            if o.kind == "raise":
+                ck.ob(R, dr, o.node, False, "data_received does not fail for an ordinary chunk")
+                continue
+            got = o.state.env["self"].attrs.get(buf, UNK)
+            if streaming:
+                ck.ob(R, dr, dr.node, streamed == [[b"second"]] and got == [b"first"], "with a streaming_callback each delivered chunk is streamed unchanged, exactly once, and not buffered", construct="data_received streaming")
+            else:
+                ck.ob(R, dr, dr.node, got == [b"first", b"second"] and not streamed, "without a streaming_callback each delivered chunk is appended unchanged after the earlier ones", construct="data_received buffered")
+
+    # --- finish
+    fin = _F(ck, SC, "_HTTPConnection.finish")
+    n_resp = 0
+    for streaming in (False, True):
+        for chunks in ([], [b"ab", b"c"]):
+            built = []
+            ev = None
+
+            def on_call(st, c, d, args, built=built):
+                if q.call_attr(c) == "HTTPResponse":
+                    kw = {k.arg: ev.ev(k.value, st) for k in c.keywords if k.arg}
+                    built.append((list(args), kw))
+
+            hdrs = HeaderMap({"Content-Type": "text/plain"})
+            ev = evaluator("finish", on_call=on_call, funcs={"BytesIO": lambda st, *a: ("BytesIO",) + tuple(a), "self._should_follow_redirect": lambda st, *a: False})
+            me = Obj("self", request=request(streaming), code=404, reason="Not Found", headers=hdrs, io_loop=Obj("loop"), start_time=0.0, start_wall_time=0.0,
+                     final_callback=Obj("cb"), release_callback=Obj("rel"), stream=Obj("stream"), client=Obj("client"), _timeout=None, **{buf: list(chunks)})
+            outs = ev.run(fin.node, {"self": me})
+            for args, kw in built:
+                n_resp += 1
+                code = args[1] if len(args) > 1 else kw.get("code", UNK)
+                ck.ob(R, fin, fin.node, code == 404, "the response carries the status code of the final response", construct="finish code streaming=%s" % streaming)
+                ck.ob(R, fin, fin.node, kw.get("headers") is not None and isinstance(kw.get("headers"), HeaderMap) and kw["headers"].d == hdrs.d, "the response carries the headers of the final response", construct="finish headers streaming=%s" % streaming)
+                b = kw.get("buffer", UNK)
+                if b is UNK or not (isinstance(b, tuple) and b and b[0] == "BytesIO"):
+                    raise AnalysisError("_HTTPConnection.finish: response buffer not decidable (%r)" % (b,))
+                if streaming:
+                    ck.ob(R, fin, fin.node, b in (("BytesIO",), ("BytesIO", b""), ("BytesIO", b"".join(chunks))), "with a streaming_callback the response buffer is empty (or the same bytes)", construct="finish buffer streaming")
+                else:
+                    ck.ob(R, fin, fin.node, b == ("BytesIO", b"".join(chunks)), "the response body is the concatenation of the delivered chunks, in order (chunks=%r)" % (chunks,), construct="finish buffer chunks=%d" % len(chunks))
+    ck.floor(R, n_resp, 4, "HTTPResponse constructions over the evaluated states")
+
+    # --- headers_received
+    hr = _F(ck, SC, "_HTTPConnection.headers_received")
     ps = [p for p in hr.params() if p != "self"]
-    sts = {p: st for st in q.walk_body(hr.node) if isinstance(st, ast.Assign) for p in q.assigned_paths(st)}
-    ck.ob(R, hr, hr.node, "self.code" in sts and q.dotted(sts["self.code"].value) == ps[0] + ".code", "the status code is taken from the parsed start line", construct="self.code")
-    ck.ob(R, hr, hr.node, "self.headers" in sts and q.dotted(sts["self.headers"].value) == ps[1], "the headers are the parsed header block", construct="self.headers")
-    writers = [(f, st) for f in repo.methods(SC, "_HTTPConnection") for st in q.stores_to(f.node, buf)]
-    ck.ob(R, None, repo.cls(SC, "_HTTPConnection"), all(f.name == "__init__" for f, st in writers) and len(writers) == 1, "the chunk buffer is created once per connection and never re-bound", construct="writers of %s" % buf, file=SC)
+    ev = evaluator("headers_received")
+    ev.funcs["self._should_follow_redirect"] = lambda st, *a: False
+    hdrs = HeaderMap({"Content-Length": "2"})
+    me = Obj("self", request=request(False), code=None, headers=None, reason=None)
+    outs = [o for o in ev.run(hr.node, {"self": me, ps[0]: Obj("first_line", code=404, reason="Not Found", version="HTTP/1.1"), ps[1]: hdrs}) if o.kind != "raise"]
+    if not outs:
+        raise AnalysisError("_HTTPConnection.headers_received has no normal outcome")
+    for o in outs:
+        a = o.state.env["self"].attrs
+        ck.ob(R, hr, hr.node, a.get("code") == 404, "the status code is taken from the parsed start line", construct="self.code")
+        ck.ob(R, hr, hr.node, isinstance(a.get("headers"), HeaderMap) and a["headers"].d == hdrs.d, "the headers are the parsed header block", construct="self.headers")
+    writers = [(f, st) for f in repo.methods(SC, "_HTTPConnection") for st in q.stores_to(f.node, "self." + buf)]
+    ck.ob(R, None, repo.cls(SC, "_HTTPConnection"), all(f.name == "__init__" for f, st in writers) and len(writers) == 1, "the chunk buffer is created once per connection and never re-bound", construct="writers of self.%s" % buf, file=SC)
 
     R = "C08.client-wiring"
-    cc = ck.func(SC, "_HTTPConnection._create_connection")
+    cc = _F(ck, SC, "_HTTPConnection._create_connection")
     ctor = [c for c in q.calls(cc.node) if q.call_attr(c) == "HTTP1Connection"]
     ck.floor(R, len(ctor), 1, "HTTP1Connection constructions in the client")
     for c in ctor:
@@ -649,7 +722,7 @@ def run(ck):
     _c01.check_transfer_encoding(ck, RP="C08")
     _c01.check_ints(ck, env, tree, RP="C08")
     _c01.check_chunked(ck, tree, RP="C08")
-    _c01.check_counted_reads(ck, ck.func(H1, "HTTP1Connection._read_fixed_body"), set(), RP="C08")
+    _c01.check_counted_reads(ck, _F(ck, H1, "HTTP1Connection._read_fixed_body"), set(), RP="C08")
     _c01.check_wire_exact(ck, tree, RP="C08")
     check_status_line(ck, env)
     check_framing(ck)
